@@ -123,7 +123,19 @@ pub fn worker(ctx: &WorkerCtx) -> WorkerReport {
     }
 }
 
-pub fn replay(id: &str, _file: &str) -> i32 {
-    eprintln!("replay not implemented for {}", id);
-    2
+/// Re-executes the run that produced a witness file: the file records the property and the run
+/// seed, and every run is a deterministic function of (property, tier, seed).
+pub fn replay(id: &str, file: &str) -> i32 {
+    let Ok(text) = std::fs::read_to_string(file) else {
+        eprintln!("cannot read {}", file);
+        return 2;
+    };
+    let v: serde_json::Value = serde_json::from_str(&text).unwrap_or(serde_json::Value::Null);
+    println!("replaying {}: {}", file, v["what"].as_str().unwrap_or(""));
+    println!("recorded signature: {}", v["signature"].as_str().unwrap_or(""));
+    if let Some(seed) = v["seed"].as_u64() {
+        std::env::set_var("VERIF_SEED", seed.to_string());
+    }
+    let tier = std::env::var("VERIF_TIER").unwrap_or_else(|_| "quick".into());
+    crate::run_parent(id, &tier)
 }
